@@ -19,13 +19,16 @@ use vfs::async_vfs::{AsyncAltrootFS, AsyncFileSystem, AsyncMemoryFS, AsyncOverla
 use vfs::error::VfsErrorKind;
 use vfs::{AltrootFS, MemoryFS, OverlayFS, PhysicalFS, VfsFileType, VfsMetadata, VfsPath, VfsResult};
 
+// behaviour trace of the async side (see oracle.rs)
+static TRACE: std::sync::Mutex<u64> = std::sync::Mutex::new(0xcbf29ce484222325);
+fn tr(s: &str) { let mut h = TRACE.lock().unwrap_or_else(|e| e.into_inner()); for b in s.as_bytes() { *h ^= *b as u64; *h = h.wrapping_mul(0x100000001b3); } *h ^= 0xff; *h = h.wrapping_mul(0x100000001b3); }
 struct Report { check: String, cases: u64, fail: Option<String> }
 impl Report {
     fn new(c: &str) -> Self { Report { check: c.into(), cases: 0, fail: None } }
     fn case(&mut self) { self.cases += 1; }
     fn fail(&mut self, input: String, detail: String) { if self.fail.is_none() { self.fail = Some(format!("{} :: {}", input, detail)); } }
     fn done(self) -> bool {
-        match self.fail { None => { println!("PASS {} cases={}", self.check, self.cases); true }
+        match self.fail { None => { println!("PASS {} cases={}", self.check, self.cases); println!("TRACE adiff:{} {:016x}", self.check, *TRACE.lock().unwrap_or_else(|e| e.into_inner())); true }
                           Some(f) => { println!("FAIL {} {}", self.check, f); false } }
     }
 }
@@ -160,15 +163,18 @@ fn oracle_steps(kind: &str, depth: usize) -> bool {
                     if excluded(kind, *op, p, sync_obs(&pair.s, p).meta.ok().map(|m| m.0)) { return None; }
                     let rs = sync_apply(&pair.s, *op, p);
                     let ra = async_apply(&pair.a, *op, p).await;
+                    tr(&format!("{:?} {} {:?} {:?}", op, p, outcome(&ra), ra.as_ref().err().map(|e| e.path().clone())));
                     let (os, oa) = (outcome(&rs), outcome(&ra));
                     // outcomes: success / failure must agree; the classes the properties name (not-found, exists) must agree too
                     let named = |c: &Result<(), EC>| matches!(c, Err(EC::NotFound) | Err(EC::FileExists) | Err(EC::DirExists) | Err(EC::NotSupported));
                     if os.is_ok() != oa.is_ok() || ((named(&os) || named(&oa)) && os != oa) { return Some(format!("step {} {:?}({:?}): sync {:?}, async {:?}", i, op, p, rs.map_err(|e| e.to_string()), ra.map_err(|e| e.to_string()))); }
                     for u in UNIVERSE.iter() {
                         let (a, b) = (sync_obs(&pair.s, u), async_obs(&pair.a, u).await);
+                        tr(&format!("{} {:?}", u, b));
                         if a != b { return Some(format!("after step {} {:?}({:?}): observations of {:?} differ: sync {:?}, async {:?}", i, op, p, u, a, b)); }
                     }
                     let (ws, wa) = (sync_walk(&pair.s), async_walk(&pair.a).await);
+                    tr(&format!("{:?}", wa.as_ref().map(|v| { let mut w = v.clone(); w.sort(); w })));
                     match (&ws, &wa) {
                         (Ok(x), Ok(y)) => { let (sx, sy): (BTreeSet<&String>, BTreeSet<&String>) = (x.iter().collect(), y.iter().collect());
                             if sx != sy || x.len() != y.len() { return Some(format!("after step {} {:?}({:?}): walk_dir differs: sync {:?}, async {:?}", i, op, p, x, y)); }
@@ -205,9 +211,9 @@ fn oracle_reader(depth: usize) -> bool {
                 let (mut hs, mut ha) = (fs_.open_file().unwrap(), fa.open_file().await.unwrap());
                 for (i, op) in script.iter().enumerate() {
                     match op {
-                        ROp::Read(n) => { let (mut bs, mut ba) = (vec![0u8; *n], vec![0u8; *n]); let (x, y) = (hs.read(&mut bs).ok(), ha.read(&mut ba).await.ok());
+                        ROp::Read(n) => { let (mut bs, mut ba) = (vec![0u8; *n], vec![0u8; *n]); let (x, y) = (hs.read(&mut bs).ok(), ha.read(&mut ba).await.ok()); tr(&format!("r {} {:?} {:?}", n, y, ba));
                             if x != y || (x.is_some() && bs[..x.unwrap()] != ba[..y.unwrap()]) { return Some(format!("step {} {:?}: sync {:?} {:?}, async {:?} {:?}", i, op, x, bs, y, ba)); } }
-                        ROp::Seek(s) => { let (x, y) = (hs.seek(*s).ok(), ha.seek(*s).await.ok()); if x != y { return Some(format!("step {} {:?}: sync {:?}, async {:?}", i, op, x, y)); } }
+                        ROp::Seek(s) => { let (x, y) = (hs.seek(*s).ok(), ha.seek(*s).await.ok()); tr(&format!("s {:?} {:?}", s, y)); if x != y { return Some(format!("step {} {:?}: sync {:?}, async {:?}", i, op, x, y)); } }
                     }
                 }
                 None
@@ -264,6 +270,7 @@ fn oracle_schedule() -> bool {
                 // the knob lives inside the filesystem object the path already points to
                 set_k(k);
                 let got = async_walk(&aroot).await;
+                tr(&format!("k{} {:?}", k, got.as_ref().map(|v| { let mut w = v.clone(); w.sort(); w })));
                 if got != base { return Some(format!("k={}: walk_dir yields {:?}, with k=0 it yields {:?}", k, got, base)); }
                 let got = got.unwrap();
                 let (sx, sy): (BTreeSet<&String>, BTreeSet<&String>) = (want.iter().collect(), got.iter().collect());
@@ -306,6 +313,7 @@ fn oracle_schedule() -> bool {
                 let mut async_rest: Vec<bool> = vec![];
                 while let Some(e) = aw.next().await { async_rest.push(e.is_ok()); if async_rest.len() >= 50 { break; } }
                 let (se, ae) = (sync_rest.iter().filter(|b| !**b).count(), async_rest.iter().filter(|b| !**b).count());
+                tr(&format!("vanish {} {} {}", k, async_rest.len(), ae));
                 if sync_rest.len() != async_rest.len() || se != ae { return Some(format!("after the entries were removed the sync walk yields {} more items ({} errors), the async stream {} ({} errors)", sync_rest.len(), se, async_rest.len(), ae)); }
                 None
             })));
@@ -318,6 +326,36 @@ fn oracle_schedule() -> bool {
 // the delay knob is reached through a process-wide cell (the path type owns the filesystem object)
 static KNOB: std::sync::atomic::AtomicUsize = std::sync::atomic::AtomicUsize::new(0);
 fn set_k(k: usize) { KNOB.store(k, std::sync::atomic::Ordering::SeqCst); }
+
+/// copy_file / move_file between two filesystem instances (memory, altroot over memory, physical as the source): async against sync
+fn oracle_transfer() -> bool {
+    let mut r = Report::new("transfer");
+    let rt = rt();
+    for src_kind in ["memory", "altroot", "physical"] {
+        for mv in [false, true] {
+            for dest_exists in [false, true] {
+                r.case();
+                let (ps, pd) = (make_pair(src_kind), make_pair("memory"));
+                let res = catch_unwind(AssertUnwindSafe(|| rt.block_on(async {
+                    let (ss, sa) = (ps.s.join("s.bin").unwrap(), ps.a.join("s.bin").unwrap());
+                    ss.create_file().unwrap().write_all(b"payload").unwrap(); sa.create_file().await.unwrap().write_all(b"payload").await.unwrap();
+                    let (ds, da) = (pd.s.join("t.bin").unwrap(), pd.a.join("t.bin").unwrap());
+                    if dest_exists { ds.create_file().unwrap().write_all(b"old").unwrap(); da.create_file().await.unwrap().write_all(b"old").await.unwrap(); }
+                    let (rs, ra) = if mv { (ss.move_file(&ds), sa.move_file(&da).await) } else { (ss.copy_file(&ds), sa.copy_file(&da).await) };
+                    tr(&format!("{} {} {} {:?}", src_kind, mv, dest_exists, outcome(&ra)));
+                    if outcome(&rs).is_ok() != outcome(&ra).is_ok() { return Some(format!("sync {:?}, async {:?}", rs.map_err(|e| e.to_string()), ra.map_err(|e| e.to_string()))); }
+                    for (fs_s, fs_a, which) in [(&ps.s, &ps.a, "source"), (&pd.s, &pd.a, "destination")] {
+                        for u in ["", "/s.bin", "/t.bin"] { let (a, b) = (sync_obs(fs_s, u), async_obs(fs_a, u).await); tr(&format!("{:?}", b)); if a != b { return Some(format!("{} filesystem, {:?}: sync {:?}, async {:?}", which, u, a, b)); } }
+                    }
+                    None
+                })));
+                let what = format!("source={} move={} dest_exists={}", src_kind, mv, dest_exists);
+                match res { Err(_) => r.fail(what, "panicked".into()), Ok(Some(d)) => r.fail(what, d), Ok(None) => {} }
+            }
+        }
+    }
+    r.done()
+}
 
 /// hostile directory content (C13 names the async port): no panic, and the async listing equals the sync one
 #[cfg(unix)]
@@ -339,6 +377,7 @@ fn oracle_hostile() -> bool {
             match op {
                 0 => { let mut a: Vec<String> = match aroot.read_dir().await { Ok(s) => s.map(|p| p.filename()).collect().await, Err(e) => return Some(format!("async read_dir failed: {}", e)) }; a.sort();
                        let mut s: Vec<String> = sroot.read_dir().unwrap().map(|p| p.filename()).collect(); s.sort();
+                       tr(&a.join("|"));
                        if a != s { return Some(format!("listing differs: sync {:?}, async {:?}", s, a)); } }
                 1 => { let (x, y) = (outcome(&sroot.join("dangling").unwrap().create_dir()), outcome(&aroot.join("dangling").unwrap().create_dir().await)); if x != y { return Some(format!("create_dir over a dangling symlink: sync {:?}, async {:?}", x, y)); } }
                 2 => { let _ = async_walk(&aroot).await; }
@@ -368,6 +407,7 @@ fn main() {
             "steps.physical" => oracle_steps("physical", 1),
             "reader" => oracle_reader(if deep { 3 } else { 2 }),
             "schedule" => oracle_schedule(),
+            "transfer" => oracle_transfer(),
             "hostile" => oracle_hostile(),
             other => { println!("UNKNOWN {}", other); false }
         };
